@@ -41,12 +41,15 @@ type NodeIdentity struct {
 	Node      *Account
 	Val       *Account
 	Ecdsa     *Account
-	IsWitness bool   // forced value of the process-wide "I am an ethereum witness" flag while this replica runs
+	IsWitness bool // forced value of the process-wide "I am an ethereum witness" flag while this replica runs
 	// Natural: do not force the flag; use what the application's own start-up code computed for this
 	// instance (witnesses.Init at process start: false on a node started before InitChain, and the
 	// truth after a restart). IsWitness is ignored then.
 	Natural bool
-	OLTEST    string // value of env OLTEST at construction
+	OLTEST  string // value of env OLTEST at construction
+	// OtherConfig: run with another node-local configuration file: aggressive pruning of old state
+	// versions (keep the last version only), another log level, other service list and addresses
+	OtherConfig bool
 }
 
 // IdentityOf returns the identity of validator i of world w (a validating, witnessing node).
@@ -63,7 +66,7 @@ func NaturalIdentityOf(v *ValSpec) NodeIdentity {
 
 // OutsiderIdentity is a non-validator, non-witness node with keys of its own.
 func OutsiderIdentity() NodeIdentity {
-	return NodeIdentity{Name: "outsider", Node: NewAccount("outsider-node"), Val: NewAccount("outsider-val"), Ecdsa: NewSecpAccount("outsider-ecdsa"), OLTEST: "1"}
+	return NodeIdentity{Name: "outsider", Node: NewAccount("outsider-node"), Val: NewAccount("outsider-val"), Ecdsa: NewSecpAccount("outsider-ecdsa"), OLTEST: "1", OtherConfig: true}
 }
 
 // TxRes is the consensus-relevant part of a DeliverTx/CheckTx response.
@@ -139,7 +142,7 @@ type Replica struct {
 	// Seam is this replica's nondeterminism context (map orders, clock offset, UUID node); only
 	// consulted by binaries built with the seam rewriter (C01).
 	Seam *verifseam.Ctx
-	cur      struct {
+	cur  struct {
 		h   int64
 		txs [][]byte
 		res []abci.ResponseDeliverTx
@@ -172,6 +175,15 @@ func (r *Replica) open() error {
 		fmt.Sscan(lv, &cfg.Node.LogLevel)
 	}
 	cfg.Node.DB = "goleveldb"
+	if r.ID.OtherConfig {
+		cfg.Node.ChainStateRotation = config.ChainStateRotationCfg{Recent: 0, Every: 0, Cycles: 0}
+		cfg.Node.LogLevel = 1
+		cfg.Node.Services = []string{"query"}
+		cfg.Node.IndexAllTags = true
+		cfg.Network.RPCAddress = "tcp://127.0.0.1:36657"
+		cfg.Network.SDKAddress = "http://127.0.0.1:36631"
+		cfg.Network.P2PAddress = "tcp://127.0.0.1:36611"
+	}
 	path := filepath.Join(r.Dir, config.FileName)
 	if _, err := os.Stat(path); err != nil {
 		if err := cfg.SaveFile(path); err != nil {
